@@ -1,7 +1,7 @@
 //! C17 — remove_assertions / remove_debug_profiling only match an unshadowed global of the
 //! exact shape (`assert(...)`, `debug.profilebegin(...)`, `debug.profileend(...)`).
 use crate::source::Source;
-use crate::{claim, note, witness};
+use crate::{claim, note, observe};
 use darklua_core::nodes::*;
 
 const NAMES: [&str; 3] = ["assert", "debug", "other"];
@@ -96,9 +96,9 @@ pub fn call_matchers<S: Source>(s: &mut S) {
     note!(s, "prefix {:?} with assert shadowed={} debug shadowed={}: assert matcher={} debug matcher={}", prefix, shadowed[0], shadowed[1], assert_match, debug_match);
     let is_assert = shape == 0 && name == 0;
     let is_profiling = shape == 1 && name == 1 && field < 2;
-    witness!(assert_match, "an assert call is matched");
-    witness!(debug_match && field == 1, "a debug.profileend call is matched");
-    witness!(!debug_match && is_profiling, "a shadowed debug call is left alone");
+    observe!(assert_match, "an assert call is matched");
+    observe!(debug_match && field == 1, "a debug.profileend call is matched");
+    observe!(!debug_match && is_profiling, "a shadowed debug call is left alone");
     claim!(s, !assert_match || is_assert, "remove_assertions only matches a call whose prefix is exactly the identifier `assert`");
     claim!(s, !assert_match || !shadowed[0], "remove_assertions never matches when `assert` is a local at the call site");
     claim!(s, !debug_match || is_profiling, "remove_debug_profiling only matches `debug.profilebegin` / `debug.profileend`");
